@@ -3,6 +3,7 @@
 //! dimension it mentions, the point has no attribute in that dimension or an attribute that is the same
 //! (unordered dimension) / the same or lower (hierarchy); '*' covers everything.
 use super::*;
+use crate::verif_native::{done, vchk};
 use crate::abe_policy::{AccessPolicy, Attribute, AttributeStatus, Dimension, EncryptionHint, QualifiedAttribute, Right};
 use std::collections::{BTreeSet, HashMap, HashSet};
 
@@ -134,12 +135,13 @@ fn complementary_rights__equal_cover_relation() {
             }
             let got: BTreeSet<Right> = s.generate_complementary_rights(&p).unwrap().into_iter().collect();
             let want: BTreeSet<Right> = pts.iter().filter(|pt| sem(&s, &p, pt)).map(|pt| right_of(&s, pt)).collect();
-            assert!(want.is_subset(&got), "C01: structure {shape:?}: user policy {p:?} lacks rights of points it covers: {:?}", want.difference(&got).collect::<Vec<_>>());
-            assert!(got.is_subset(&want), "C02: structure {shape:?}: user policy {p:?} receives rights of points it does not cover: {:?}", got.difference(&want).collect::<Vec<_>>());
+            vchk!(want.is_subset(&got), "C01: structure {shape:?}: user policy {p:?} lacks rights of points it covers: {:?}", want.difference(&got).collect::<Vec<_>>());
+            vchk!(got.is_subset(&want), "C02: structure {shape:?}: user policy {p:?} receives rights of points it does not cover: {:?}", got.difference(&want).collect::<Vec<_>>());
             n += 1;
         }
     }
     println!("VERIF-COUNT complementary_rights__equal_cover_relation {n}");
+    done();
 }
 
 // @obl props=C02 tier=quick fn=abe_policy::AccessStructure::generate_complementary_rights shape="user conjunctions naming two attributes of one dimension (unordered and ordered)"
@@ -155,12 +157,13 @@ fn complementary_rights__same_dimension_conjunction() {
             Ok(got) => {
                 let got: BTreeSet<Right> = got.into_iter().collect();
                 let want: BTreeSet<Right> = pts.iter().filter(|pt| sem(&s, &p, pt)).map(|pt| right_of(&s, pt)).collect();
-                assert!(got.is_subset(&want), "C02: user policy {p:?} (two attributes of one dimension) receives rights of points it does not cover: {:?}", got.difference(&want).collect::<Vec<_>>());
+                vchk!(got.is_subset(&want), "C02: user policy {p:?} (two attributes of one dimension) receives rights of points it does not cover: {:?}", got.difference(&want).collect::<Vec<_>>());
             }
         }
         n += 1;
     }
     println!("VERIF-COUNT complementary_rights__same_dimension_conjunction {n}");
+    done();
 }
 
 // @obl props=C01,C09 tier=quick fn=abe_policy::AccessStructure::generate_associated_rights shape="8 structures, all encryption policies of <= 3 terms; unknown attribute / dimension"
@@ -172,19 +175,20 @@ fn associated_rights__one_right_per_conjunction() {
         for p in policies(&s) {
             let got: BTreeSet<Right> = s.generate_associated_rights(&p).unwrap().into_iter().collect();
             let want: BTreeSet<Right> = p.to_dnf().iter().map(|c| right_of(&s, c)).collect();
-            assert!(got == want, "C01: structure {shape:?}: encryption policy {p:?} targets {got:?}, expected one right per DNF conjunction {want:?}");
+            vchk!(got == want, "C01: structure {shape:?}: encryption policy {p:?} targets {got:?}, expected one right per DNF conjunction {want:?}");
             n += 1;
         }
         let unknown_attr = AccessPolicy::Term(QualifiedAttribute::new("D0", "zz"));
         let unknown_dim = AccessPolicy::Term(QualifiedAttribute::new("ZZ", "a0"));
-        assert!(matches!(s.generate_associated_rights(&unknown_attr), Err(Error::AttributeNotFound(_))), "C09: an unknown attribute in an encryption policy is reported (AttributeNotFound)");
-        assert!(matches!(s.generate_associated_rights(&unknown_dim), Err(Error::DimensionNotFound(_))), "C09: an unknown dimension in an encryption policy is reported (DimensionNotFound)");
-        assert!(s.generate_complementary_rights(&unknown_attr).is_err() && s.generate_complementary_rights(&unknown_dim).is_err(), "C09: unknown names in a user policy are reported");
+        vchk!(matches!(s.generate_associated_rights(&unknown_attr), Err(Error::AttributeNotFound(_))), "C09: an unknown attribute in an encryption policy is reported (AttributeNotFound)");
+        vchk!(matches!(s.generate_associated_rights(&unknown_dim), Err(Error::DimensionNotFound(_))), "C09: an unknown dimension in an encryption policy is reported (DimensionNotFound)");
+        vchk!(s.generate_complementary_rights(&unknown_attr).is_err() && s.generate_complementary_rights(&unknown_dim).is_err(), "C09: unknown names in a user policy are reported");
     }
     println!("VERIF-COUNT associated_rights__one_right_per_conjunction {n}");
+    done();
 }
 
-// @obl props=C06,C11,C03 tier=quick fn=abe_policy::AccessStructure::omega shape="8 structures x all hint assignments (<= 7 attributes) x one disabled attribute at every position"
+// @obl props=C01,C03,C06,C11 tier=quick fn=abe_policy::AccessStructure::omega shape="8 structures x all hint assignments (<= 7 attributes) x one disabled attribute at every position"
 #[test]
 fn omega__rights_hints_and_status() {
     let mut n = 0u64;
@@ -199,20 +203,21 @@ fn omega__rights_hints_and_status() {
                 }
                 let om = s.omega().unwrap();
                 let pts = points(&s);
-                assert!(om.len() == pts.len(), "C03: omega holds one right per point (got {}, expected {})", om.len(), pts.len());
+                vchk!(om.len() == pts.len(), "C03: omega holds one right per point (got {}, expected {})", om.len(), pts.len());
                 for pt in &pts {
                     let r = right_of(&s, pt);
                     let (h, st) = om.get(&r).unwrap_or_else(|| panic!("C01: omega lacks the right of point {pt:?}"));
                     let want_h = pt.iter().any(|qa| s.get_attribute(qa).unwrap().get_encryption_hint() == EncryptionHint::Hybridized);
                     let want_ro = pt.iter().any(|qa| s.get_attribute(qa).unwrap().get_status() == AttributeStatus::DecryptOnly);
-                    assert!((*h == EncryptionHint::Hybridized) == want_h, "C11: the right of {pt:?} is hybridized iff one of its attributes is (hints {hints:b})");
-                    assert!((*st == AttributeStatus::DecryptOnly) == want_ro, "C06: the right of {pt:?} is decrypt-only iff one of its attributes is disabled");
+                    vchk!((*h == EncryptionHint::Hybridized) == want_h, "C11: the right of {pt:?} is hybridized iff one of its attributes is (hints {hints:b})");
+                    vchk!((*st == AttributeStatus::DecryptOnly) == want_ro, "C06: the right of {pt:?} is decrypt-only iff one of its attributes is disabled");
                 }
                 n += 1;
             }
         }
     }
     println!("VERIF-COUNT omega__rights_hints_and_status {n}");
+    done();
 }
 
 // @obl props=C03 tier=quick fn=abe_policy::AccessStructure::add_attribute shape="8 structures: delete any one attribute, add a new one in any dimension; the new id differs from every live id"
@@ -231,16 +236,17 @@ fn add_attribute__id_unique_among_live_attributes() {
                 s.add_attribute(newa.clone(), EncryptionHint::Classic, None).unwrap();
                 let new_id = s.get_attribute(&newa).unwrap().get_id();
                 for (qa, a) in &before {
-                    assert!(s.get_attribute(qa).unwrap() == a, "C03: adding an attribute changes no other attribute ({qa:?})");
-                    assert!(a.get_id() != new_id, "C03: the new attribute {newa:?} received the id {new_id} of the live attribute {qa:?} (after deleting {:?})", attrs[del]);
+                    vchk!(s.get_attribute(qa).unwrap() == a, "C03: adding an attribute changes no other attribute ({qa:?})");
+                    vchk!(a.get_id() != new_id, "C03: the new attribute {newa:?} received the id {new_id} of the live attribute {qa:?} (after deleting {:?})", attrs[del]);
                 }
                 let ids: HashSet<usize> = s.attributes().map(|qa| s.get_attribute(&qa).unwrap().get_id()).collect();
-                assert!(ids.len() == s.attributes().count(), "C03: ids of live attributes are pairwise distinct");
+                vchk!(ids.len() == s.attributes().count(), "C03: ids of live attributes are pairwise distinct");
                 n += 1;
             }
         }
     }
     println!("VERIF-COUNT add_attribute__id_unique_among_live_attributes {n}");
+    done();
 }
 
 // @obl props=C03 tier=quick fn=abe_policy::AccessStructure::add_attribute shape="delete the attribute with the highest id, add a new one: the id of the deleted attribute must not be reused"
@@ -257,13 +263,14 @@ fn add_attribute__id_never_reused_after_deletion() {
         let newa = QualifiedAttribute::new("D0", "new");
         s.add_attribute(newa.clone(), EncryptionHint::Classic, None).unwrap();
         let new_id = s.get_attribute(&newa).unwrap().get_id();
-        assert!(new_id != top_id, "C03: the new attribute {newa:?} reuses id {top_id} of the deleted attribute {top:?}: keys issued for {top:?} gain access to {newa:?} once refreshed");
+        vchk!(new_id != top_id, "C03: the new attribute {newa:?} reuses id {top_id} of the deleted attribute {top:?}: keys issued for {top:?} gain access to {newa:?} once refreshed");
         n += 1;
     }
     println!("VERIF-COUNT add_attribute__id_never_reused_after_deletion {n}");
+    done();
 }
 
-// @obl props=C03,C09 tier=quick fn=abe_policy::AccessStructure::del_attribute shape="structure edits confined to the named dimension; documented errors"
+// @obl props=C03,C06,C09,C10 tier=quick fn=abe_policy::AccessStructure::del_attribute shape="structure edits confined to the named dimension; documented errors"
 #[test]
 fn structure_edits__frame_and_errors() {
     let mut n = 0u64;
@@ -272,7 +279,7 @@ fn structure_edits__frame_and_errors() {
         let other: Vec<(QualifiedAttribute, Attribute)> = base.attributes().filter(|qa| qa.dimension != "D0").map(|qa| (qa.clone(), base.get_attribute(&qa).unwrap().clone())).collect();
         let check_frame = |s: &AccessStructure, what: &str| {
             for (qa, a) in &other {
-                assert!(s.get_attribute(qa).unwrap() == a, "C03: {what} in D0 changed {qa:?} of another dimension");
+                vchk!(s.get_attribute(qa).unwrap() == a, "C03: {what} in D0 changed {qa:?} of another dimension");
             }
         };
         let a0 = QualifiedAttribute::new("D0", "a0");
@@ -280,40 +287,41 @@ fn structure_edits__frame_and_errors() {
         let id1 = base.get_attribute(&a1).unwrap().clone();
         let mut s = base.clone();
         s.rename_attribute(&a0, "renamed".to_string()).unwrap();
-        assert!(s.get_attribute(&QualifiedAttribute::new("D0", "renamed")).unwrap() == base.get_attribute(&a0).unwrap(), "C03: a renamed attribute keeps id, hint and status");
-        assert!(s.get_attribute(&a0).is_err() && s.get_attribute(&a1).unwrap() == &id1, "C03: renaming touches only the named attribute");
+        vchk!(s.get_attribute(&QualifiedAttribute::new("D0", "renamed")).unwrap() == base.get_attribute(&a0).unwrap(), "C03: a renamed attribute keeps id, hint and status");
+        vchk!(s.get_attribute(&a0).is_err() && s.get_attribute(&a1).unwrap() == &id1, "C03: renaming touches only the named attribute");
         check_frame(&s, "rename");
         let mut s = base.clone();
         s.disable_attribute(&a0).unwrap();
         let mut want = base.get_attribute(&a0).unwrap().clone();
         want.write_status = AttributeStatus::DecryptOnly;
-        assert!(s.get_attribute(&a0).unwrap() == &want && s.get_attribute(&a1).unwrap() == &id1, "C06: disabling only flips the status of the named attribute");
+        vchk!(s.get_attribute(&a0).unwrap() == &want && s.get_attribute(&a1).unwrap() == &id1, "C06: disabling only flips the status of the named attribute");
         check_frame(&s, "disable");
         let mut s = base.clone();
         s.del_attribute(&a0).unwrap();
-        assert!(s.get_attribute(&a0).is_err() && s.get_attribute(&a1).unwrap() == &id1, "C03: deleting removes only the named attribute");
+        vchk!(s.get_attribute(&a0).is_err() && s.get_attribute(&a1).unwrap() == &id1, "C03: deleting removes only the named attribute");
         check_frame(&s, "delete");
         let mut s = base.clone();
         s.del_dimension("D0").unwrap();
-        assert!(s.dimensions().all(|d| d != "D0"), "C03: the dimension is removed");
+        vchk!(s.dimensions().all(|d| d != "D0"), "C03: the dimension is removed");
         check_frame(&s, "delete dimension");
         // documented errors
         let mut s = base.clone();
         let snapshot = s.clone();
-        assert!(matches!(s.add_anarchy("D0".into()), Err(Error::ExistingDimension(_))) && matches!(s.add_hierarchy("D1".into()), Err(Error::ExistingDimension(_))), "C09: duplicate dimension");
-        assert!(matches!(s.del_dimension("ZZ"), Err(Error::DimensionNotFound(_))), "C09: unknown dimension");
-        assert!(matches!(s.add_attribute(QualifiedAttribute::new("ZZ", "x"), EncryptionHint::Classic, None), Err(Error::DimensionNotFound(_))), "C09: unknown dimension on add");
-        assert!(matches!(s.add_attribute(a0.clone(), EncryptionHint::Classic, None), Err(Error::OperationNotPermitted(_))), "C09: duplicate attribute");
-        assert!(matches!(s.del_attribute(&QualifiedAttribute::new("D0", "zz")), Err(Error::AttributeNotFound(_))) && matches!(s.del_attribute(&QualifiedAttribute::new("ZZ", "a0")), Err(Error::DimensionNotFound(_))), "C09: unknown names on delete");
-        assert!(s.rename_attribute(&a0, "a1".into()).is_err() && s.rename_attribute(&QualifiedAttribute::new("D0", "zz"), "q".into()).is_err() && matches!(s.rename_attribute(&QualifiedAttribute::new("ZZ", "a0"), "q".into()), Err(Error::DimensionNotFound(_))), "C09: refused renames");
-        assert!(matches!(s.disable_attribute(&QualifiedAttribute::new("D0", "zz")), Err(Error::AttributeNotFound(_))) && matches!(s.disable_attribute(&QualifiedAttribute::new("ZZ", "a0")), Err(Error::DimensionNotFound(_))), "C09: unknown names on disable");
+        vchk!(matches!(s.add_anarchy("D0".into()), Err(Error::ExistingDimension(_))) && matches!(s.add_hierarchy("D1".into()), Err(Error::ExistingDimension(_))), "C09: duplicate dimension");
+        vchk!(matches!(s.del_dimension("ZZ"), Err(Error::DimensionNotFound(_))), "C09: unknown dimension");
+        vchk!(matches!(s.add_attribute(QualifiedAttribute::new("ZZ", "x"), EncryptionHint::Classic, None), Err(Error::DimensionNotFound(_))), "C09: unknown dimension on add");
+        vchk!(matches!(s.add_attribute(a0.clone(), EncryptionHint::Classic, None), Err(Error::OperationNotPermitted(_))), "C09: duplicate attribute");
+        vchk!(matches!(s.del_attribute(&QualifiedAttribute::new("D0", "zz")), Err(Error::AttributeNotFound(_))) && matches!(s.del_attribute(&QualifiedAttribute::new("ZZ", "a0")), Err(Error::DimensionNotFound(_))), "C09: unknown names on delete");
+        vchk!(s.rename_attribute(&a0, "a1".into()).is_err() && s.rename_attribute(&QualifiedAttribute::new("D0", "zz"), "q".into()).is_err() && matches!(s.rename_attribute(&QualifiedAttribute::new("ZZ", "a0"), "q".into()), Err(Error::DimensionNotFound(_))), "C09: refused renames");
+        vchk!(matches!(s.disable_attribute(&QualifiedAttribute::new("D0", "zz")), Err(Error::AttributeNotFound(_))) && matches!(s.disable_attribute(&QualifiedAttribute::new("ZZ", "a0")), Err(Error::DimensionNotFound(_))), "C09: unknown names on disable");
         if shape[0].0 {
-            assert!(matches!(s.add_attribute(QualifiedAttribute::new("D0", "x"), EncryptionHint::Classic, Some("zz")), Err(Error::AttributeNotFound(_))), "C09: unknown `after` attribute in a hierarchy");
+            vchk!(matches!(s.add_attribute(QualifiedAttribute::new("D0", "x"), EncryptionHint::Classic, Some("zz")), Err(Error::AttributeNotFound(_))), "C09: unknown `after` attribute in a hierarchy");
         }
-        assert!(s == snapshot, "C10: refused edits leave the structure untouched");
+        vchk!(s == snapshot, "C10: refused edits leave the structure untouched");
         n += 1;
     }
     println!("VERIF-COUNT structure_edits__frame_and_errors {n}");
+    done();
 }
 
 // @obl props=C01,C02,C03,C09,C13 tier=quick fn=abe_policy::Dimension::restrict shape="hierarchies of 1..4 attributes built in every insertion order (after = any existing / None), then every single deletion and every duplicate add (any insertion point); order, name lookup and restriction at every rank"
@@ -328,14 +336,14 @@ fn hierarchy__order_and_restriction() {
     while let Some((s, order)) = stack.pop() {
         // check order and restriction
         let names: Vec<String> = s.dimensions["H"].get_attributes_name().cloned().collect();
-        assert!(names == order, "C03: hierarchy order {names:?}, expected {order:?}");
+        vchk!(names == order, "C03: hierarchy order {names:?}, expected {order:?}");
         for (rank, name) in order.iter().enumerate() {
             match s.dimensions["H"].restrict(name.clone()).unwrap() {
                 Dimension::Hierarchy(d) => {
                     let got: Vec<String> = d.keys().cloned().collect();
-                    assert!(got == order[..=rank].to_vec(), "C01/C02/C03: restriction of {order:?} (built by successive insertions) to {name} is {got:?}, expected exactly the attributes at or below it");
+                    vchk!(got == order[..=rank].to_vec(), "C01/C02/C03: restriction of {order:?} (built by successive insertions) to {name} is {got:?}, expected exactly the attributes at or below it");
                     for k in d.keys() {
-                        assert!(d.get(k) == s.dimensions["H"].get_attribute(k), "C01/C03: restriction keeps ids, hints and status");
+                        vchk!(d.get(k) == s.dimensions["H"].get_attribute(k), "C01/C03: restriction keeps ids, hints and status");
                     }
                 }
                 _ => panic!("C01: restriction of a hierarchy is a hierarchy"),
@@ -346,9 +354,9 @@ fn hierarchy__order_and_restriction() {
         {
             use cosmian_crypto_core::bytes_ser_de::Serializable;
             let bytes = s.serialize().unwrap();
-            assert!(bytes.len() == s.length(), "C13: access structure: announced length");
+            vchk!(bytes.len() == s.length(), "C13: access structure: announced length");
             let back = AccessStructure::deserialize(&bytes).unwrap();
-            assert!(back == s, "C02/C03/C13: the access structure with hierarchy {order:?} does not survive a serialization round-trip (order or parameters changed)");
+            vchk!(back == s, "C02/C03/C13: the access structure with hierarchy {order:?} does not survive a serialization round-trip (order or parameters changed)");
         }
         // deletions: the remaining attributes keep order, parameters and restrictions; lookups by name stay right
         for del in 0..order.len() {
@@ -357,15 +365,15 @@ fn hierarchy__order_and_restriction() {
             let mut o2 = order.clone();
             o2.remove(del);
             let names2: Vec<String> = s2.dimensions["H"].get_attributes_name().cloned().collect();
-            assert!(names2 == o2, "C03: after deleting {} from {order:?} the order is {names2:?}", order[del]);
+            vchk!(names2 == o2, "C03: after deleting {} from {order:?} the order is {names2:?}", order[del]);
             for (rank, name) in o2.iter().enumerate() {
                 let want = s.dimensions["H"].get_attribute(name).unwrap();
-                assert!(s2.dimensions["H"].get_attribute(name) == Some(want), "C02/C03: after deleting {} from {order:?}, the name {name} resolves to another attribute (or to none)", order[del]);
+                vchk!(s2.dimensions["H"].get_attribute(name) == Some(want), "C02/C03: after deleting {} from {order:?}, the name {name} resolves to another attribute (or to none)", order[del]);
                 match s2.dimensions["H"].restrict(name.clone()).unwrap() {
                     Dimension::Hierarchy(d) => {
                         let got: Vec<(String, Attribute)> = d.iter().map(|(k, v)| (k.clone(), v.clone())).collect();
                         let exp: Vec<(String, Attribute)> = o2[..=rank].iter().map(|k| (k.clone(), s.dimensions["H"].get_attribute(k).unwrap().clone())).collect();
-                        assert!(got == exp, "C01/C02/C03: after deleting {} from {order:?}, the restriction to {name} is {got:?}, expected {exp:?}", order[del]);
+                        vchk!(got == exp, "C01/C02/C03: after deleting {} from {order:?}, the restriction to {name} is {got:?}, expected {exp:?}", order[del]);
                     }
                     _ => panic!("C01: restriction of a hierarchy is a hierarchy"),
                 }
@@ -377,8 +385,8 @@ fn hierarchy__order_and_restriction() {
             for after in std::iter::once(None).chain(order.iter().map(Some)) {
                 let mut s2 = s.clone();
                 let r = s2.add_attribute(QualifiedAttribute::new("H", dup), EncryptionHint::Hybridized, after.map(|x| x.as_str()));
-                assert!(matches!(r, Err(Error::OperationNotPermitted(_))), "C03/C09: adding the existing name {dup} to hierarchy {order:?} after {after:?} returned {r:?}, expected the duplicate-name error");
-                assert!(s2 == s, "C03/C09: a refused duplicate add of {dup} after {after:?} changed hierarchy {order:?}");
+                vchk!(matches!(r, Err(Error::OperationNotPermitted(_))), "C03/C09: adding the existing name {dup} to hierarchy {order:?} after {after:?} returned {r:?}, expected the duplicate-name error");
+                vchk!(s2 == s, "C03/C09: a refused duplicate add of {dup} after {after:?} changed hierarchy {order:?}");
                 n += 1;
             }
         }
@@ -398,6 +406,7 @@ fn hierarchy__order_and_restriction() {
         }
     }
     println!("VERIF-COUNT hierarchy__order_and_restriction {n}");
+    done();
 }
 
 impl AccessStructure {
